@@ -81,5 +81,12 @@ def msgpackDecode : Bytes → Option (Bytes × Bytes)
 /-- a bare integer option value means seconds (nanoseconds returned) -/
 def bareSeconds (n : Int) : Int := n * 1000000000
 
+/-- "conflicting options are rejected": two or more options of one kind (payload: --data / -D / --file / -F; protocol;
+    format) are refused whatever their values -/
+def conflictVerdict (k : Nat) : String := if k ≥ 2 then "rejected" else "accepted"
+
+theorem conflicts_rejected (k : Nat) (h : 2 ≤ k) : conflictVerdict k = "rejected" := by
+  unfold conflictVerdict; simp [h]
+
 end Macat
 end Model
